@@ -272,16 +272,22 @@ class WKCResource(Resource):
 
             if k in ("rt", "if", "ct"):
                 filters.append(
-                    lambda link: any(
+                    lambda link, k=k, matchexp=matchexp: any(
                         matchexp(part)
-                        for part in (" ".join(getattr(link, k, ()))).split(" ")
+                        for (name, value) in link.attr_pairs
+                        if name == k and value is not None
+                        for part in value.split(" ")
                     )
                 )
-            elif k in ("href",):  # x.href is single valued
-                filters.append(lambda link: matchexp(getattr(link, k)))
+            elif k in ("href",):
+                filters.append(lambda link, matchexp=matchexp: matchexp(link.href))
             else:
                 filters.append(
-                    lambda link: any(matchexp(part) for part in getattr(link, k, ()))
+                    lambda link, k=k, matchexp=matchexp: any(
+                        matchexp(value)
+                        for (name, value) in link.attr_pairs
+                        if name == k and value is not None
+                    )
                 )
 
         while filters:
